@@ -12,7 +12,7 @@
    dereference, index out of range, close of closed channel) — the harness runs every
    family with panics fatal, including calls racing with and following Wait / Shutdown /
    cancellation ("late" family). *)
-From MPB Require Import Base BaseProofs BarState BarStateProofs Container ContainerProofs ContainerLife ContainerProgress GenChecks.
+From MPB Require Import Base BaseProofs BarState BarStateProofs Container ContainerProofs ContainerLife ContainerProgress GenChecks PQueue PQueueProofs.
 From MPB.gen Require Import GenApi.
 From Coq Require Import String.
 Open Scope string_scope.
@@ -73,6 +73,26 @@ Proof.
   unfold step, serving, is_idle. rewrite P, X. cbn. auto.
 Qed.
 Print Assumptions C02_container_inert_after_return.
+
+(* the heap's index bookkeeping (the heap manager indexes its slice with bar.index): in every state of every valid run
+   each bar in the queue carries its own position, a bar that was popped carries -1 and a bar never pushed 0, so a late
+   priority change on a departed bar is ignored and never indexes the slice out of range *)
+Theorem C02_queue_indices_consistent : forall ops q seen,
+  QInv q seen -> run_ok q ops ->
+  let q' := fst (qrun q ops) in
+  (forall k, (k < List.length (arr q'))%nat -> idx q' (fst (PQueue.get (arr q') k)) = Z.of_nat k) /\
+  (forall b, ~ In b (ids (arr q')) -> In b (fold_left seen_after ops seen) -> idx q' b = (-1)%Z).
+Proof.
+  intros ops q seen I V. destruct (qrun_inv ops q seen I V) as [_ [_ Ik] O _]. split; [exact Ik|].
+  intros b Hb Hs. apply (O b Hb). exact Hs.
+Qed.
+Print Assumptions C02_queue_indices_consistent.
+
+Theorem C02_popped_bar_index_is_reset : forall q x q',
+  IdxOk q -> pop q = Some (x, q') -> IdxOk q' /\ idx q' (fst x) = (-1)%Z /\ ~ In (fst x) (ids (arr q')) /\
+  (forall c, ~ In c (ids (arr q)) -> idx q' c = idx q c).
+Proof. exact pop_idx. Qed.
+Print Assumptions C02_popped_bar_index_is_reset.
 
 Example C02_nonvacuous :
   exists g, In g selects /\ has_send g = true /\ g_method g = "Add"%string /\ can_proceed late g = true
